@@ -139,6 +139,9 @@ fn rules() -> Vec<Case> {
     let mut c = case("rsa:1024-bit", Violates("rsa-key-size"), |_s| {});
     c.ee_key = KeyKind::Rsa1024;
     v.push(c);
+    let mut c = case("rsa:2047-bit", Violates("rsa-key-size"), |_s| {});
+    c.ee_key = KeyKind::Rsa2047;
+    v.push(c);
     // --- unique IDs ----------------------------------------------------------------------------
     v.push(case("uid:issuerUniqueID", Violates("unique-id"), |s| {
         s.issuer_uid = Some(vec![0xA5, 0x5A, 0x01]);
